@@ -169,6 +169,10 @@ def decrBond (c : FastOps) (b : Nat) : FastOps :=
   { c with bondCounters := c.bondCounters.map (fun l => l.modify b (· - 1)) }
 def incrBond (c : FastOps) (b : Nat) : FastOps :=
   { c with bondCounters := c.bondCounters.map (fun l => l.modify b (· + 1)) }
+def setPEnds (c : FastOps) (e : Option (Nat × Nat)) : FastOps := { c with pEnds := e }
+def setN (c : FastOps) (k : Nat) : FastOps := { c with n := k }
+/-- `self.ops[p] = x` -/
+def setOp (c : FastOps) (p : Nat) (x : Option Node) : FastOps := { c with ops := c.ops.set p x }
 
 end FastOps
 
@@ -198,17 +202,17 @@ def uninstallGlobal (c : FastOps) (node : Node) (a : Cursor) : FastOps :=
     match a.lastP with
     | some lp => c.setNextP lp node.nextP
     | none =>
-      { c with pEnds := match c.pEnds with
+      c.setPEnds (match c.pEnds with
           | some (_, tail) => node.nextP.map (fun nh => (nh, tail))
-          | none => none }
+          | none => none)
   let hasNext := match node.nextP with
     | some q => (c1.getNode q).isSome
     | none => false
   if hasNext then c1.setPrevP (node.nextP.getD 0) a.lastP
   else
-    { c1 with pEnds := match c1.pEnds with
+    c1.setPEnds (match c1.pEnds with
         | some (head, _) => node.previousP.map (fun nt => (head, nt))
-        | none => none }
+        | none => none)
 
 /-- one iteration `(relv, v)` of "Now do the same for variables" -/
 def uninstallVar (node : Node) (a : Cursor) (c : FastOps) (vr : Nat × Nat) : FastOps :=
@@ -234,7 +238,7 @@ def uninstallVar (node : Node) (a : Cursor) (c : FastOps) (vr : Nat × Nat) : Fa
 def uninstall (c : FastOps) (node : Node) (a : Cursor) : FastOps :=
   let c1 := uninstallGlobal c node a
   let c2 := node.op.vars.zipIdx.foldl (uninstallVar node a) c1
-  let c3 := { c2 with n := c2.n - 1 }
+  let c3 := c2.setN (c2.n - 1)
   c3.decrBond node.op.bond
 
 /-- `(prev_p_and_rel, next_p_and_rel)` for variable `v` of the op being installed -/
@@ -290,18 +294,18 @@ def installGlobal (c : FastOps) (p : Nat) (op : Op) (prevs nexts : List (Option 
     match a.lastP with
     | some prev => c.setNextP prev (some p)
     | none =>
-      { c with pEnds := match c.pEnds with
+      c.setPEnds (match c.pEnds with
           | some (_, tail) => some (p, tail)
-          | none => some (p, p) }
+          | none => some (p, p))
   let c2 :=
     match nextP with
     | some next => c1.setPrevP next (some p)
     | none =>
-      { c1 with pEnds := match c1.pEnds with
+      c1.setPEnds (match c1.pEnds with
           | some (head, _) => some (head, p)
-          | none => some (p, p) }
+          | none => some (p, p))
   let c3 := c2.incrBond op.bond
-  { c3 with ops := c3.ops.set p (some node), n := c3.n + 1 }
+  (c3.setOp p (some node)).setN (c3.n + 1)
 
 /-- the whole install branch -/
 def install (c : FastOps) (p : Nat) (op : Op) (a : Cursor) : FastOps :=
@@ -316,12 +320,12 @@ def install (c : FastOps) (p : Nat) (op : Op) (a : Cursor) : FastOps :=
 def fastInstall (c : FastOps) (p : Nat) (old : Node) (op : Op) : FastOps :=
   let node : Node := { old with op := op }
   let c1 := (c.decrBond old.op.bond).incrBond op.bond
-  { c1 with ops := c1.ops.set p (some node) }
+  c1.setOp p (some node)
 
 /-- the container part of `mutate_p` once the callback has answered `Some(new)` -/
 def change (c : FastOps) (p : Nat) (new : Option Op) (a : Cursor) : FastOps :=
   let old := c.getNode p
-  let c0 := { c with ops := c.ops.set p none }
+  let c0 := c.setOp p none
   let sameVars :=
     match new, old with
     | some o, some nd => nd.op.vars == o.vars
